@@ -22,14 +22,19 @@ def members(js):
 
 def jobs(tier):
     sel = []
-    step = 3 if tier == 'quick' else 1
+    step = 3 if tier == 'quick' else 2
     for pre, spec, k in (('sat', S, 6), ('lra', L, 1), ('dl', D, 5), ('bool', B, 1), ('ov', O, 4), ('arith', A, 1)):
         ms = members(spec.jobs(tier))
         if pre == 'arith':
             ms = [m for m in ms if m.name.startswith('lin/')]
         if pre == 'bool':
-            ms = ms[::8]
-        ms = ms[::step]
+            ms = ms[::8] if tier == 'quick' else ms[::4]
+        keep = {'sat': len(S.CURATED), 'dl': 2 * len(D.CURATED), 'lra': len(L.CURATED)}.get(pre, 0)   # curated scenarios are always included
+        if pre == 'dl':
+            cur = [m for m in ms if int(m.name.split('scenario')[-1]) < len(D.CURATED)]
+            ms = cur + [m for m in ms if m not in cur][::step]
+        else:
+            ms = ms[:keep] + ms[keep:][::step]
         for m in ms:
             m.name = pre + '/' + m.name
             m.only_labels = ABNORMAL
